@@ -317,7 +317,7 @@ package connect
 
 //@ func (*envelopeReader).Read(r, env) res
 //@   tags C01, C03, C04, C07, C09, C15
-//@   requires r != nil && r.reader != nil && !pooled(r.reader) && env != nil && env.Data != nil && owned(env.Data)
+//@   requires r != nil && r.reader != nil && !pooled(r.reader) && termerr(r.reader) != errSpecialEnvelope && env != nil && env.Data != nil && owned(env.Data)
 //@   assigns env.Flags, view(env.Data), rest(r.reader)
 //@   ensures let S := old(rest(r.reader)) in |S| >= 5 && withinLimit(declared(S), r.readMaxBytes) && |S| >= 5 + declared(S) ==> res == nil && env.Flags == S[0] && view(env.Data) == old(view(env.Data)) ++ S[5:5+declared(S)] && rest(r.reader) == S[5+declared(S):]   // label: complete-frame-delivered
 //@   ensures |old(rest(r.reader))| == 0 && termerr(r.reader) == io.EOF ==> res != nil && Is(res, io.EOF)      // label: clean-end-is-eof
@@ -329,6 +329,7 @@ package connect
 //@   ensures let S := old(rest(r.reader)) in |S| >= 5 && r.readMaxBytes > 0 && declared(S) > r.readMaxBytes && (|S| >= 5 + declared(S) || termerr(r.reader) == io.EOF) ==> codeOf(res) == 3   // label: over-limit-is-invalid-argument
 //@   ensures res == nil ==> |old(rest(r.reader))| >= 5 && withinLimit(declared(old(rest(r.reader))), r.readMaxBytes) && |old(rest(r.reader))| >= 5 + declared(old(rest(r.reader)))   // label: success-implies-complete-frame-within-limit
 //@   ensures res != nil ==> asErr(res) == res                                                                  // label: errors-are-coded
+//@   ensures res != nil ==> !Is(res, errSpecialEnvelope)                                                       // label: never-the-end-of-stream-sentinel   // tags: C04
 //@   ensures res != nil && res != asErr(termerr(r.reader)) ==> res.code != 0                                   // label: own-errors-have-nonzero-code   // tags: C06
 //@   ensures res != nil && coded(termerr(r.reader)) && |old(rest(r.reader))| < 5 + (if |old(rest(r.reader))| >= 5 then declared(old(rest(r.reader))) else 0) && !(|old(rest(r.reader))| >= 5 && r.readMaxBytes > 0 && declared(old(rest(r.reader))) > r.readMaxBytes) && !Is(termerr(r.reader), io.EOF) ==> res == asErr(termerr(r.reader))   // label: coded-transport-error-passes-through   // tags: C15
 //@   assert@call((*bytes.Buffer).Grow#1): r.readMaxBytes <= 0 || size <= r.readMaxBytes                        // label: buffer-growth-within-limit   // tags: C09
@@ -444,6 +445,10 @@ package connect
 //@ sentinel custom errSpecialEnvelope
 //@ axiom special_envelope_wraps_eof: errSpecialEnvelope != nil && Is(errSpecialEnvelope, io.EOF) && asErr(errSpecialEnvelope) == errSpecialEnvelope && dtypeIs(errSpecialEnvelope, "*Error")
 //@   doc: "from the initialiser errorf(CodeUnknown, \"final message has protocol-specific flags: %w\", io.EOF) and the contract of errorf"
+//@ axiom special_envelope_is_private: forall e ref :: {Is(e, errSpecialEnvelope)} !fresh(e) && e != errSpecialEnvelope ==> !Is(e, errSpecialEnvelope)
+//@   doc: "errSpecialEnvelope is unexported and the module never wraps it in another error (it is only returned and compared), so no other existing error has it in its chain"
+//@ axiom as_is_in_the_chain: forall e ref, t ref :: {Is(asErr(e), t)} Is(asErr(e), t) ==> Is(e, t)
+//@   doc: "errors.As finds a member of e's chain; whatever that member wraps, e wraps"
 
 // payloadOf(S): the payload of the first envelope of S; plain(r, S): what the codec is given.
 //@ spec payloadOf(s seq) seq = s[5:5+declared(s)]
@@ -454,12 +459,15 @@ package connect
 
 //@ func (*envelopeReader).Unmarshal(r, message) res
 //@   tags C01, C03, C04, C07, C08, C09
-//@   requires r != nil && r.reader != nil && !pooled(r.reader) && r.bufferPool != nil && r.codec != nil
+//@   requires r != nil && r.reader != nil && !pooled(r.reader) && termerr(r.reader) != errSpecialEnvelope && r.bufferPool != nil && r.codec != nil
 //@   assigns rest(r.reader), mval(message), r.last.Data, r.last.Flags
 //@   ensures let S := old(rest(r.reader)) in completeFrame(r, S) && (S[0] == 0 || S[0] == 1) && plainOK(r, S) ==> (res == nil <==> mdecOK(r.codec, plain(r, S))) && rest(r.reader) == S[5+declared(S):]    // label: message-accepted-iff-codec-accepts
 //@   ensures let S := old(rest(r.reader)) in completeFrame(r, S) && (S[0] == 0 || S[0] == 1) && plainOK(r, S) && res == nil ==> mval(message) == mdec(r.codec, plain(r, S))   // label: target-is-exactly-the-decoded-payload   // tags: C01
 //@   ensures let S := old(rest(r.reader)) in res == nil ==> completeFrame(r, S) && (S[0] == 0 || S[0] == 1) && plainOK(r, S) && mdecOK(r.codec, plain(r, S))   // label: success-only-for-a-complete-decodable-message-within-limits   // tags: C04, C07, C09
 //@   ensures let S := old(rest(r.reader)) in completeFrame(r, S) && S[0] != 0 && S[0] != 1 && plainOK(r, S) ==> res == errSpecialEnvelope && r.last.Flags == S[0] && r.last.Data != nil && owned(r.last.Data) && view(r.last.Data) == plain(r, S) && rest(r.reader) == S[5+declared(S):]   // label: protocol-flagged-frame-is-kept-aside   // tags: C04, C05
+//@   ensures let S := old(rest(r.reader)) in res == errSpecialEnvelope ==> completeFrame(r, S) && S[0] != 0 && S[0] != 1 && plainOK(r, S) && r.last.Flags == S[0] && r.last.Data != nil && owned(r.last.Data) && view(r.last.Data) == plain(r, S)   // label: the-sentinel-means-a-flagged-frame-was-kept-aside   // tags: C04, C05
+//@   ensures res != nil && Is(res, errSpecialEnvelope) ==> res == errSpecialEnvelope                          // label: nothing-else-wraps-the-sentinel   // tags: C04
+//@   ensures res != nil && Is(res, io.EOF) && res != errSpecialEnvelope && termerr(r.reader) == io.EOF ==> |old(rest(r.reader))| == 0   // label: eof-other-than-the-sentinel-only-at-a-clean-end   // tags: C04
 //@   ensures let S := old(rest(r.reader)) in res != nil && Is(res, io.EOF) && termerr(r.reader) == io.EOF ==> |S| == 0 || (completeFrame(r, S) && S[0] != 0 && S[0] != 1)   // label: eof-only-at-clean-end-or-flagged-frame   // tags: C04
 //@   ensures let S := old(rest(r.reader)) in res != nil && Is(res, io.EOF) && !coded(termerr(r.reader)) && !Is(termerr(r.reader), io.EOF) ==> completeFrame(r, S) && S[0] != 0 && S[0] != 1   // label: no-clean-end-when-the-transport-failed   // tags: C04
 //@   ensures let S := old(rest(r.reader)) in |S| >= 5 && r.readMaxBytes > 0 && declared(S) > r.readMaxBytes ==> res != nil   // label: oversize-on-the-wire-rejected   // tags: C09
@@ -957,3 +965,49 @@ package connect
 //@   ensures called("StreamingClientConn.Receive", 2) && callres("StreamingClientConn.Receive", 2) == nil ==> err != nil && coded(err)   // label: a-second-message-is-an-error   // tags: C04
 //@   ensures called("StreamingClientConn.Receive", 2) && coded(callres("StreamingClientConn.Receive", 2)) && !Is(callres("StreamingClientConn.Receive", 2), io.EOF) ==> err == callres("StreamingClientConn.Receive", 2)   // label: code-of-the-trailing-error-is-preserved   // tags: C15, C02
 //@   ensures called("StreamingClientConn.Receive", 2) && callres("StreamingClientConn.Receive", 2) != nil && !Is(callres("StreamingClientConn.Receive", 2), io.EOF) ==> err != nil && coded(err)   // label: trailing-error-is-coded
+
+// ---------------------------------------------------------------------------
+// protocol_connect.go: streaming client side (C04: the end-of-stream envelope)
+// ---------------------------------------------------------------------------
+
+// header.go: every write of mergeHeaders goes into `into` (the functional
+// contract over the multimap is part of C11, not yet built: map iteration is abstracted).
+//@ func mergeHeaders(into, from)
+//@   tags C04, C06, C11
+//@   requires into != nil
+//@   assigns mapof(into), mapvals(into)
+
+//@ func (*connectStreamingUnmarshaler).Trailer(u) res
+//@   tags C04, C06
+//@   requires u != nil
+//@   ensures res == u.trailer
+//@ func (*connectStreamingUnmarshaler).EndStreamError(u) res
+//@   tags C04, C06
+//@   requires u != nil
+//@   ensures res == u.endStreamErr
+
+//@ trusted func json.Unmarshal(data, v) err
+//@   assigns callerfresh
+//@   doc: "Unmarshal parses the JSON-encoded data and stores the result in the value pointed to by v: it writes to v (a value the caller allocated) and to objects it allocates itself, nothing else."
+
+//@ func (*connectStreamingUnmarshaler).Unmarshal(u, message) res
+//@   tags C04, C06
+//@   requires u != nil && u.envelopeReader.reader != nil && !pooled(u.envelopeReader.reader) && termerr(u.envelopeReader.reader) != errSpecialEnvelope && u.envelopeReader.bufferPool != nil && u.envelopeReader.codec != nil
+//@   assigns everything
+//@   ensures res == nil ==> old(completeFrame(u.envelopeReader, rest(u.envelopeReader.reader)) && (rest(u.envelopeReader.reader)[0] == 0 || rest(u.envelopeReader.reader)[0] == 1))   // label: a-message-only-from-a-complete-data-frame
+//@   ensures called("json.Unmarshal", 1) ==> old(completeFrame(u.envelopeReader, rest(u.envelopeReader.reader)) && bit(rest(u.envelopeReader.reader)[0], 2))   // label: end-of-stream-is-parsed-only-from-a-frame-flagged-0x02
+//@   ensures res != nil && Is(res, io.EOF) && termerr(u.envelopeReader.reader) == io.EOF && !called("json.Unmarshal", 1) ==> |old(rest(u.envelopeReader.reader))| == 0   // label: otherwise-eof-only-at-a-clean-end
+//@   ensures res != nil ==> asErr(res) == res                                                           // label: errors-are-coded
+//@   ensures res != errSpecialEnvelope ==> u.endStreamErr == old(u.endStreamErr)                        // label: end-stream-error-set-only-with-the-sentinel
+
+//@ constfield connectStreamingClientConn.duplexCall, connectStreamingClientConn.responseTrailer, connectStreamingClientConn.responseHeader, connectStreamingClientConn.compressionPools, connectStreamingClientConn.bufferPool
+//@ constfield duplexHTTPCall.requestBodyReader, duplexHTTPCall.requestBodyWriter, duplexHTTPCall.ctx, duplexHTTPCall.request, duplexHTTPCall.httpClient
+
+//@ func (*connectStreamingClientConn).Receive(cc, msg) err
+//@   tags C04, C06
+//@   requires cc != nil && cc.duplexCall != nil && cc.duplexCall.requestBodyReader != nil && cc.responseTrailer != nil && cc.responseHeader != nil
+//@   requires cc.unmarshaler.envelopeReader.reader != nil && !pooled(cc.unmarshaler.envelopeReader.reader) && termerr(cc.unmarshaler.envelopeReader.reader) != errSpecialEnvelope && cc.unmarshaler.envelopeReader.bufferPool != nil && cc.unmarshaler.envelopeReader.codec != nil
+//@   assigns everything
+//@   ensures callres("(*connectStreamingUnmarshaler).Unmarshal", 1) == nil ==> err == nil                // label: a-decoded-message-is-delivered
+//@   ensures err != nil && Is(err, io.EOF) ==> Is(callres("(*connectStreamingUnmarshaler).Unmarshal", 1), errSpecialEnvelope) || (err == cc.unmarshaler.endStreamErr && (callres("(*connectStreamingUnmarshaler).Unmarshal", 1) == errSpecialEnvelope || old(cc.unmarshaler.endStreamErr) != nil))   // label: clean-end-only-after-the-end-of-stream-envelope
+//@   ensures err != nil ==> coded(err)                                                                  // label: errors-are-coded
